@@ -1,6 +1,7 @@
 import GV.Model.Selection
 import GV.Proofs.Selection
 import GV.Gen.GoLite
+import GV.Gen.SrcG7
 /-!
 C41 — Chain selection is a consistent preference order.
 
@@ -305,6 +306,93 @@ theorem PreferredWithDensity_order_independent_simple (p : Params) (l1 l2 : List
     compareWithDensity p r1 r2 = 0 :=
   preferred_order_independent (cwd_pre_simple p) l1 l2 hp hl i1 i2 r1 r2 h1 h2
 
+/-! ### PreferredWithDensity with one metric for the whole candidate set -/
+
+/-- `CompareWithDensity` is `compareWithDensityMetric` at the pair's own metric (as in the Go code) -/
+theorem cwd_is_pair_metric (p : Params) (a b : Cand) :
+    compareWithDensity p a b = compareWithDensityMetric p (windowMetricFor p [a, b]) a b := by
+  cases a with
+  | none => cases b <;> simp [compareWithDensity, compareWithDensityMetric]
+  | some x =>
+    cases b with
+    | none => simp [compareWithDensity, compareWithDensityMetric]
+    | some y =>
+      simp only [compareWithDensity, compareWithDensityMetric, compareDensity, compareDensityMetric,
+        windowMetricFor, candWindowed, usesCount, List.all_cons, List.all_nil, Bool.and_true, Bool.and_assoc]
+
+theorem cwdm_eq_cwdU (p : Params) (m : Bool) (a b : Cand) :
+    compareWithDensityMetric p m a b = cwdU m p a b := by
+  cases a with
+  | none =>
+    cases b <;> by_cases hd : deep p = true <;>
+      simp [compareWithDensityMetric, cwdU, lexC, cmpOn, kSome, hd, compareTips, kDens]
+  | some x =>
+    cases b with
+    | none => simp [compareWithDensityMetric, cwdU, lexC, cmpOn, kSome]
+    | some y =>
+      by_cases hd : deep p = true
+      · have hd' : isDeepFork p.k p.forkBN p.tipBN = true := hd
+        simp only [compareWithDensityMetric, cwdU, lexC, cmpOn, kSome, hd, hd', Option.isSome_some, ↓reduceIte,
+          compareDensityMetric, kDens, cmpNat_eq_cmpOn, Bool.not_true, Bool.false_eq_true]
+        simp
+      · have hd' : isDeepFork p.k p.forkBN p.tipBN = false := by simpa [deep] using hd
+        simp [compareWithDensityMetric, cwdU, lexC, cmpOn, kSome, hd, hd']
+
+/-- with the metric fixed, the comparison is a total preorder on ALL candidates, mixed or not -/
+theorem cwdm_pre (p : Params) (m : Bool) : Pre (fun _ : Cand => True) (compareWithDensityMetric p m) :=
+  (cwdU_pre m p).congr (fun a b _ _ => cwdm_eq_cwdU p m a b)
+
+/-- **`PreferredWithDensity` returns a maximal candidate for EVERY candidate list** —
+    windowed, simple, mixed, nil entries, any parameters: no same-metric hypothesis. The order is the
+    one the function itself uses: the comparison at the metric of the whole set. -/
+theorem PreferredWithDensity_maximal (p : Params) (l : List Cand) (i : Nat) (r : Cand)
+    (hr : preferredWithDensity p l = some (i, r)) :
+    l[i]? = some r ∧ ∀ x ∈ l, 0 ≤ compareWithDensityMetric p (windowMetricFor p l) r x :=
+  preferred_maximal (cwdm_pre p _) l (fun _ _ => trivial) i r hr
+
+/-- the metric of a candidate set does not depend on the order of the candidates -/
+theorem windowMetricFor_perm (p : Params) (l1 l2 : List Cand) (hp : l1.Perm l2) :
+    windowMetricFor p l1 = windowMetricFor p l2 := by
+  unfold windowMetricFor
+  congr 1
+  rw [Bool.eq_iff_iff]
+  simp only [List.all_eq_true]
+  exact ⟨fun h x hx => h x (hp.mem_iff.mpr hx), fun h x hx => h x (hp.mem_iff.mp hx)⟩
+
+/-- **… whatever order they are given in**, again for every candidate list -/
+theorem PreferredWithDensity_order_independent (p : Params) (l1 l2 : List Cand) (hp : l1.Perm l2)
+    (i1 i2 : Nat) (r1 r2 : Cand)
+    (h1 : preferredWithDensity p l1 = some (i1, r1)) (h2 : preferredWithDensity p l2 = some (i2, r2)) :
+    compareWithDensityMetric p (windowMetricFor p l1) r1 r2 = 0 := by
+  unfold preferredWithDensity at h1 h2
+  rw [← windowMetricFor_perm p l1 l2 hp] at h2
+  exact preferred_order_independent (cwdm_pre p _) l1 l2 hp (fun _ _ => trivial) i1 i2 r1 r2 h1 h2
+
+/-- on a homogeneous set (all windowed, or none) the set's metric is every pair's metric, so the
+    order used by `PreferredWithDensity` is the pairwise `CompareWithDensity` -/
+theorem set_metric_is_pairwise (p : Params) (l : List Cand)
+    (h : (∀ x ∈ l, allWindowed x) ∨ (∀ x ∈ l, noneWindowed x) ∨ p.window = 0) (a b : Cand)
+    (ha : a ∈ l) (hb : b ∈ l) (hab : a.isSome ∧ b.isSome) :
+    compareWithDensityMetric p (windowMetricFor p l) a b = compareWithDensity p a b := by
+  rw [cwd_is_pair_metric]
+  congr 1
+  obtain ⟨x, rfl⟩ := Option.isSome_iff_exists.mp hab.1
+  obtain ⟨y, rfl⟩ := Option.isSome_iff_exists.mp hab.2
+  rcases h with h | h | h
+  · have hx := h _ ha x rfl
+    have hy := h _ hb y rfl
+    have : l.all candWindowed = true := by
+      rw [List.all_eq_true]; intro c hc
+      cases c with
+      | none => rfl
+      | some t => exact h _ hc t rfl
+    simp [windowMetricFor, candWindowed, this, hx, hy]
+  · have hx := h _ ha x rfl
+    have : l.all candWindowed = false := by
+      rw [List.all_eq_false]; exact ⟨some x, ha, by simp [candWindowed, hx]⟩
+    simp [windowMetricFor, candWindowed, this, hx]
+  · simp [windowMetricFor, h]
+
 /-! ### the routing predicate, as translated from the Go source -/
 
 theorem gen_isDeepFork_eq (k slot forkBN tipBN : Nat) (h1 : forkBN < 2 ^ 64) (h2 : tipBN < 2 ^ 64) :
@@ -394,11 +482,48 @@ theorem C41_witness : ¬ C41_full := by
   have := ht (by omega) (by omega)
   omega
 
-/-- on the witness the preferred candidate depends on the order and is not maximal -/
+/-- on the witness, selecting with the PAIRWISE comparison (the code before fix c71a18d) depends on
+    the order and is not maximal -/
 theorem mixed_preferred_witness :
     selectPreferred (compareWithDensity wP) [some w1, some w2, some wS] = some (2, some wS) ∧
     selectPreferred (compareWithDensity wP) [some wS, some w1, some w2] = some (2, some w2) ∧
     compareWithDensity wP (some w2) (some wS) = 1 := by decide
+
+/-- the former witness of order dependence: now one answer, and it is maximal -/
+theorem mixed_preferred_repaired :
+    preferredWithDensity wP [some w1, some w2, some wS] = some (1, some w2) ∧
+    preferredWithDensity wP [some wS, some w1, some w2] = some (2, some w2) := by decide
+
+/-- Regenerated tie: `Compare`, `selectPreferred` and `WindowedChainTip.BlocksInWindow` as re-extracted from
+    the source on every run are the statements the model mirrors. -/
+theorem source_as_modelled :
+    GV.Gen.SrcG7.compare = [
+  "if a == nil && b == nil { return 0 }",
+  "if a == nil { return -1 }",
+  "if b == nil { return 1 }",
+  "if a.BlockNumber() != b.BlockNumber() { if a.BlockNumber() > b.BlockNumber() { return 1 } return -1 }",
+  "aVRFBytes := a.VRFOutput()",
+  "bVRFBytes := b.VRFOutput()",
+  "if len(aVRFBytes) == 0 && len(bVRFBytes) == 0 { return 0 }",
+  "if len(aVRFBytes) == 0 { return -1 }",
+  "if len(bVRFBytes) == 0 { return 1 }",
+  "aVRF := new(big.Int).SetBytes(aVRFBytes)",
+  "bVRF := new(big.Int).SetBytes(bVRFBytes)",
+  "cmp := aVRF.Cmp(bVRF)",
+  "if cmp < 0 { return 1 }",
+  "if cmp > 0 { return -1 }",
+  "return 0"] ∧
+    GV.Gen.SrcG7.selectPreferred = [
+  "if len(candidates) == 0 { return nil }",
+  "preferred := candidates[0]",
+  "for i := 1; i < len(candidates); i++ { if compare(candidates[i], preferred) > 0 { preferred = candidates[i] } }",
+  "return preferred"] ∧
+    GV.Gen.SrcG7.blocksInWindow = [
+  "if windowSlots == 0 { return 0 }",
+  "var count uint64",
+  "for _, blockSlot := range w.blockSlots { if blockSlot > forkSlot && blockSlot-forkSlot <= windowSlots { count++ } }",
+  "return count"] := by
+  decide
 
 /-! non-vacuity -/
 example : selectPreferred compareTips [some wS, none, some { wS with bn := 9 }, some w1] =
